@@ -723,8 +723,42 @@ def r8_order_sensitive_setters(F, res):
         res.ok(rid, "setter-overwrites", None, "%d setters, each stores its own field only" % len(setters))
 
 
+def r10_whole_file(F, res):
+    """The bytes of a generated file are the bytes the generator computed: every writer replaces the file as a whole
+    (std::fs::write / File::create truncate). A writer that opens the existing file for update (OpenOptions without
+    truncate) leaves the tail of a longer, older file in place - the same grammar and settings then give different bytes
+    depending on what was generated there before."""
+    rid = res.rule("C17-R10", "generated files are written whole: every file writer of the compiler is std::fs::write or File::create; none "
+                   "opens the output for update", floor=2)
+    n = 0
+    for f in F.fns.values():
+        if f.crate != "rustemo_compiler" or not f.has_body() or "::tests::" in f.path or f.d.get("inlined_into"):
+            continue
+        trunc = any((callee(t) or "").endswith("OpenOptions::truncate") and len(t.get("args", [])) > 1 and
+                    t["args"][1].get("k") == "const" and t["args"][1].get("int") == 1 for _, t in f.calls())
+        setlen = any((callee(t) or "").endswith("File::set_len") for _, t in f.calls())
+        for b, t in f.calls():
+            nm = callee(t) or ""
+            where = "%s:%s" % (f.file, t.get("line"))
+            root = f.path.split("::{closure")[0].rsplit("::", 1)[-1]
+            if nm.startswith("std::fs::write") or nm.startswith("std::fs::File::create"):
+                n += 1
+                res.ok(rid, "writer/%s" % root, where, mir.short(nm))
+            elif nm.endswith("OpenOptions::open") or nm.startswith("std::fs::File::options"):
+                n += 1
+                if trunc or setlen:
+                    res.ok(rid, "writer/%s" % root, where, "OpenOptions with truncate/set_len")
+                else:
+                    res.violation(rid, "writer/%s/update-in-place" % root, "%s opens a file through OpenOptions without truncating it (no "
+                                  "truncate(true), no set_len): what is left of a longer file that was there before stays behind "
+                                  "the new content" % f.path.split("::{closure")[0], where)
+    if n == 0:
+        res.anchor_lost(rid, "no file writer found in rustemo_compiler")
+
+
 def run(ctx, res):
     F = ctx.facts("core")
+    r10_whole_file(F, res)
     r8_order_sensitive_setters(F, res)
     fns = fns_of(F)
     n_lookup = r1_hash_order(F, res, fns)
